@@ -696,9 +696,9 @@ def make_sd(tt: list[list[int]], cfg: dict | None = None, names: list[str] | Non
     if text is None:
         # half of the networks with source variables present them as free inputs (no update function)
         text = render_bnet(tt, names, free_inputs=(sum(map(sum, tt)) % 2 == 0))
-    if fmt != "bnet" and not text.lstrip().startswith(("<", "$", "#")) and "->" not in text and "-?" not in text:
+    if not fmt.startswith("bnet") and not text.lstrip().startswith(("<", "$", "#")) and "->" not in text and "-?" not in text:
         net0 = BooleanNetwork.from_bnet(text)
-        text = net0.to_aeon() if fmt == "aeon" else net0.to_sbml()
+        text = net0.to_aeon() if fmt.startswith("aeon") else net0.to_sbml()
     c = SuccessionDiagram.default_config()
     cfg = cfg or default_cfg()
     c["max_motifs_per_node"] = cfg["maxm"]
@@ -706,6 +706,17 @@ def make_sd(tt: list[list[int]], cfg: dict | None = None, names: list[str] | Non
     c["retained_set_optimization_threshold"] = cfg["rsthr"]
     c["minimum_simulation_budget"] = cfg["simbudget"]
     c["nfvs_size_threshold"] = cfg["nfvsthr"]
+    if fmt.endswith("-file"):
+        # the same text through from_file (format inferred from the extension)
+        import tempfile
+        ext = fmt[:-5]
+        with tempfile.NamedTemporaryFile("w", suffix="." + ext, delete=False) as f:
+            f.write(text)
+            path = f.name
+        try:
+            return SuccessionDiagram.from_file(path, config=c)
+        finally:
+            os.unlink(path)
     return SuccessionDiagram.from_rules(text, format=fmt, config=c)
 
 
